@@ -506,8 +506,8 @@ def rules(rep, m):
     # R-C17-8 siblings agree ------------------------------------------------------------
     r8 = rep.rule("R-C17-8", "adding a sample is merging with the one-sample summary: read as exact formulas over the rationals "
                   "(engine LAU), the first four moment sums (and the weight sum) that add(S, x[, w]) leaves behind are "
-                  "identical to those of merge(S, {count 1, mean x, m2 = m3 = m4 = 0[, weight w]}), for a non-empty S and a "
-                  "positive weight; this is a necessary condition of 'any split and merge order gives the same statistics' "
+                  "identical to those of merge(S, one) and merge(one, S) with one = {count 1, mean x, m2 = m3 = m4 = 0[, weight w]}, "
+                  "for a non-empty S with symbolic sums and for a freshly initialised S (the first sample), and a positive weight; this is a necessary condition of 'any split and merge order gives the same statistics' "
                   "(a split that puts one sample on one side) and ties each term of the merge formulas to the update formula",
                   floor=2)
     from ..engines.laurent import LP, Formula
@@ -516,15 +516,17 @@ def rules(rep, m):
     base = {"m1": LP.sym("M1"), "m2": LP.sym("M2"), "m3": LP.sym("M3"), "m4": LP.sym("M4")}
     one = {"count": LP.const(1), "m1": y, "m2": LP(), "m3": LP(), "m4": LP()}
     pairs = ((ds_add, m.need("cmb_datasummary_merge"), False), (ws_add, m.need("cmb_wtdsummary_merge"), True))
-    for fa, fm, weighted in pairs:
-        S = dict(base, count=N - LP.const(1))
+    cases = [(fa, fm, weighted, empty) for fa, fm, weighted in pairs for empty in (False, True)]
+    for fa, fm, weighted, empty in cases:
+        # the first summary: non-empty with symbolic sums, or freshly initialised (the first sample of a summary)
+        S = dict(base, count=N - LP.const(1)) if not empty else {"count": LP(), "m1": LP(), "m2": LP(), "m3": LP(), "m4": LP()}
         O = dict(one)
         if weighted:
-            S["wsum"] = W - w
+            S["wsum"] = (W - w) if not empty else LP()
             O["wsum"] = w
         pa, pm = fa.params, fm.params
         A = Formula(m, fa, {pa[0]["name"]: dict(S)}, dict([(pa[1]["name"], y)] + ([(pa[2]["name"], w)] if weighted else [])))
-        A.positive = M_pos = [N, N - LP.const(1), w, W, W - w]
+        A.positive = M_pos = [N, N - LP.const(1), w, W, W - w, LP.const(1)]
         A.run()
         fields = ["m1", "m2", "m3", "m4"] + (["wsum"] if weighted else [])
         for order in ("S, one", "one, S"):
@@ -538,12 +540,12 @@ def rules(rep, m):
               if va is None or vm is None:
                   raise AnalysisBroken("R-C17-8: %s / %s leave no value for %s" % (fa.name, fm.name, fl))
               same = (va - vm) == LP()
-              r8.instance("%s vs %s(%s), %s: identical: %s (%d terms)" % (fa.name, fm.name, order, fl, same, len(va)))
+              r8.instance("%s vs %s(%s)%s, %s: identical: %s (%d terms)" % (fa.name, fm.name, order, " with S empty" if empty else "", fl, same, len(va)))
               if same:
                   r8.ok()
               else:
                   diff = va - vm
-                  rep.finding(r8, fm.name, "siblings:" + fl + (":mirrored" if order != "S, one" else ""), "%s and %s disagree on %s when one of the merged summaries holds a single "
+                  rep.finding(r8, fm.name, "siblings:" + fl + (":mirrored" if order != "S, one" else "") + (":first-sample" if empty else ""), "%s and %s disagree on %s when one of the merged summaries holds a single "
                               "sample: add leaves %s, merge leaves %s (difference %s; N is the combined count%s, M1..M4 the "
                               "sums of the first summary, x the sample): one of the two formulas is wrong, and the statistics "
                               "then depend on how the samples were split" % (fa.name, fm.name, fl, va.show(4), vm.show(4),
